@@ -52,6 +52,13 @@ def run(ctx):
             ctx.check(("prop", h[0], h[1], s), "property", enum=True)
         i += 1
     ctx.exhaustive[f"alphabet<= {L_all} on codec+property"] = True
+    # a lone CR (and other specials) exactly at and around the fold boundaries of the physical lines
+    for h in HOSTS:
+        for n in list(range(55, 80)) + list(range(128, 153)) + list(range(202, 226)):
+            for ch in ("\r", "\r\r", " ", "\t", "\\", ";", "\r "):
+                if ctx.mine(i):
+                    ctx.check(("prop", h[0], h[1], "a" * n + ch + "b" * 30), "fold-boundary", enum=True)
+                i += 1
     if not ctx.quick:
         for t in itertools.product(ALPHABET, repeat=6):
             if ctx.mine(i):
@@ -145,6 +152,14 @@ def check_case(ctx, case):
         ctx.nontrivial(_special(s))
         want = R1.norm(s)
         cls = {"VEVENT": Event, "VTODO": Todo, "VJOURNAL": Journal}[host]
+        if "\n" not in s:
+            # the same characters first go out through value types that do not escape (URI, CAL-ADDRESS): whatever the
+            # library remembers from that must not leak into the TEXT encoding
+            from icalendar.prop import vUri, vCalAddress
+            pre = Event()
+            pre.add("url", vUri(s))
+            pre.add("attendee", vCalAddress(s))
+            pre.to_ical()
         c = cls()
         c.add(name, s)
         data = c.to_ical()
